@@ -251,10 +251,12 @@ def t4_programs(tier):
         ["start Act1Action() as $a", "when $a.Finished()", "  send M1()", "or when E1()", "  send M2()", "match E3()"],
         ["await Act0Action() and (Act1Action() or Act2Action())", "send M1()", "match E3()"],
         ["when E1() and (c or d)", "  send M1()", "match E3()"],
+        ["start c and (d or e)", "match E1()", "start c and (d or e)", "match E3()"],
+        ["start Act0Action() and (Act1Action() or Act2Action())", "match E1()", "send M1()", "match E3()"],
     ]
     for f, wrap in itertools.product(forms, [False, True]):
         c = "flow c\n" + ind(["match E2()", "start ActCAction()", "match E4()"])
-        d = "flow d\n" + ind(["match E4()"])
+        d = "flow d\n" + ind(["match E4()"]) + "\nflow e\n" + ind(["match E2()", "match E4()"])
         if wrap:
             p = "flow p\n" + ind(f)
             main = "flow main\n" + ind(["start p", "match Never()"])
@@ -268,7 +270,8 @@ def t4_programs(tier):
 
 
 def explore(task):
-    src, activators, once, evnames, internals, info, depth = task
+    src, activators, once, evnames, internals, info, depth = task[:7]
+    with_started = task[7] if len(task) > 7 else False
     fixed = [("ext", n, {}) for n in evnames] + [("internal", n, a) for n, a in internals]
 
     def alphabet(state, node):
@@ -277,6 +280,9 @@ def explore(task):
         evs = list(fixed)
         for k in range(min(3, len(v2x.pending_actions(state)))):
             evs.append(("act", k, "Finished", {}))
+            if with_started:
+                # Started events may arrive late (even after a Stop was sent) or repeatedly
+                evs.append(("act", k, "Started", {}))
         return evs
 
     mon = Lifetime(activators, once)
@@ -291,6 +297,14 @@ def tasks(tier):
     for gen, depth in ((t1_programs, d[0]), (t2_programs, d[1]), (t3_programs, d[2]), (t4_programs, d[3])):
         for src, act, once, evs, ints, info in gen(tier):
             out.append((src, act, once, evs, ints, info, depth))
+    # the same scope / shared-action programs with action Started events in the alphabet
+    for gen, depth in ((t4_programs, d[3] + 1), (t2_programs, d[1])):
+        for src, act, once, evs, ints, info in gen(tier):
+            out.append((src, act, once, evs[:3], ints, dict(info, started_events=True), depth, True))
+    if tier == "thorough":
+        for i, (src, act, once, evs, ints, info) in enumerate(t1_programs(tier)):
+            if i % 4 == 0:
+                out.append((src, act, once, evs, ints, dict(info, started_events=True), d[0] - 1, True))
     return out
 
 
